@@ -112,3 +112,20 @@ Print Assumptions C03_exec_clamped_is_proof_model.
 Theorem C03_exec_every_curve_has_a_real_counterpart : forall c : @curve Q, { c' : @curve R & SV_o_Curve_o_curve_R Q R QR c c' }.
 Proof. exact curve_total. Qed.
 Print Assumptions C03_exec_every_curve_has_a_real_counterpart.
+From SV Require Import ExecProps.
+(* the executable lookup itself is defined on [0,1] and stays within [0, max_power] (rational curves whose real image is well-formed) *)
+Theorem C03_exec_lookup_total_bounded : forall tbl (c:@curve Q) (s:Q),
+  wf_curve (curveQ2R c) -> maxp (curveQ2R c) = maxfold (pts (curveQ2R c)) -> nonneg (pts (curveQ2R c)) ->
+  (0 <= s)%Q -> (s <= 1)%Q ->
+  exists v, @power_from_soc Q (QNum tbl) c s = Ok v /\ (0 <= v)%Q /\ (v <= maxp c)%Q.
+Proof. exact lookup_exec_total_bounded. Qed.
+Print Assumptions C03_exec_lookup_total_bounded.
+Definition ex_curve_q : @curve Q := {| pts := [(0,11); (4#5,11); (1,2)]%Q; maxp := 11%Q |}.
+Example C03_exec_hypotheses_satisfiable :
+  wf_curve (curveQ2R ex_curve_q) /\ nonneg (pts (curveQ2R ex_curve_q)) /\ maxp (curveQ2R ex_curve_q) = maxfold (pts (curveQ2R ex_curve_q)).
+Proof.
+  assert (E : curveQ2R ex_curve_q = ex_curve).
+  { unfold curveQ2R, ex_curve_q, ex_curve; cbn [pts maxp map fst snd]. f_equal; [|unfold Q2R; cbn; lra].
+    repeat (f_equal; try (unfold Q2R; cbn; lra)). }
+  rewrite E. exact C03_hypotheses_satisfiable.
+Qed.
